@@ -1,5 +1,7 @@
+import NA.Model.GateDrv
 import NA.Core.IOUtil
-/-! Driver stub for C06 (not built yet): echoes its input. -/
+/-! Driver for C06 (and the session part of C11): one scenario per line → the model's run
+(trace of requests, exit status, diagnostic).  Protocol: see NA/Model/GateDrv.lean. -/
 def main (_ : List String) : IO UInt32 := do
-  NA.IOUtil.eachLine id
+  NA.IOUtil.eachLine NA.Gate.Drv.answer
   return 0
